@@ -12,7 +12,7 @@ pub fn lua_dir() -> String {
 }
 
 const CONTENT: &[&str] = &["alpha", "  beta  ", "x = \"quoted\"", "é→ü", "tab\there", "", "   ", "k=v1", "k=v2 trailing", "back\\slash", "<tag>", "a,b;c", "名前", "line with # hash"];
-const PATTERNS: &[&str] = &[r"k=(?P<value>\w+)", r"k=\w+", r"(?s)alpha.*", r"nomatch\d{5}", "(", r"(?P<value>é.)", r"^\s+beta", r"k=(?P<value>\w+)|alpha"];
+const PATTERNS: &[&str] = &[r"k=(?P<value>\w+)", r"k=\w+", r"(?s)alpha.*", r"nomatch\d{5}", "(", r"(?P<value>é.)", r"^\s+beta", r"k=(?P<value>\w+)|alpha", r"k=(?<value>\w+)", r"k=(?P<val>\w+)"];
 const OK_SCRIPTS: &[&str] = &["echo.lua", "echo.lua", "echo.lua", "busy_echo.lua", "nil.lua", "str.lua"];
 const BAD_SCRIPTS: &[&str] = &["syntax.lua", "runtime.lua", "novalidate.lua", "number.lua", "table.lua", "bool.lua", "toplevel.lua", "does_not_exist.lua"];
 
